@@ -10,9 +10,11 @@ import (
 	"bytes"
 	"encoding/binary"
 	"fmt"
+	"hash/fnv"
 	"math/bits"
 	"sort"
 
+	"github.com/go-text/typesetting/font"
 	ot "github.com/go-text/typesetting/font/opentype"
 
 	"verifharness/internal/corpus"
@@ -250,13 +252,13 @@ func Main() {
 	}
 	// (2) table counts 0..40 with every residue
 	for n := 0; n <= 40; n++ {
-		for rep := 0; rep < run.Pick(20, 400); rep++ {
+		for rep := 0; rep < run.Pick(100, 1000); rep++ {
 			r := gen.New(run.Seed, "C19/count", n*1000+rep)
 			cases = append(cases, genCase(r, n, 67, -1))
 		}
 	}
 	// (3) random lengths up to 4096
-	for i := 0; i < run.Pick(3000, 100000); i++ {
+	for i := 0; i < run.Pick(20000, 200000); i++ {
 		r := gen.New(run.Seed, "C19/rand", i)
 		cases = append(cases, genCase(r, r.Intn(12), 4096, -1))
 	}
@@ -265,9 +267,6 @@ func Main() {
 	// (4) every corpus sfnt re-written from its own tables and re-parsed
 	files := corpus.Files()
 	nf := len(files)
-	if !run.Thorough() {
-		nf = 150
-	}
 	order := make([]int, len(files))
 	for i := range order {
 		order[i] = i
@@ -299,6 +298,27 @@ func Main() {
 			}
 			run.Cover("corpus-font-rewritten")
 			judge(w)
+			// the re-written file parses into the same font: compare a digest of what
+			// font.NewFont exposes (upem, character map, advances, extents)
+			d0, ok0 := fontDigest(ld)
+			if ok0 {
+				tabs := make([]ot.Table, len(w.Tables))
+				for i, t := range w.Tables {
+					tabs[i] = ot.Table{Tag: ot.Tag(t.Tag), Content: t.Content}
+				}
+				var d1 string
+				ok1 := false
+				if pv, _ := vrun.Catch(func() {
+					ld2, err := ot.NewLoader(bytes.NewReader(ot.WriteTTF(tabs)))
+					if err == nil {
+						d1, ok1 = fontDigest(ld2)
+					}
+				}); pv != nil || !ok1 || d0 != d1 {
+					run.Violation("C19/reparse-font-differs", fmt.Sprintf("font %s re-written from its own tables does not parse to the same font (ok=%v)", f.ID, ok1), w)
+				} else {
+					run.Cover("corpus-font-reparsed-equal")
+				}
+			}
 		}
 	})
 
@@ -323,4 +343,32 @@ func bucket(n int) int {
 		return 32
 	}
 	return 40
+}
+
+// fontDigest summarises what font.NewFont exposes for a loader.
+func fontDigest(ld *ot.Loader) (string, bool) {
+	var out string
+	ok := false
+	vrun.Catch(func() {
+		ft, err := font.NewFont(ld)
+		if err != nil {
+			return
+		}
+		face := font.NewFace(ft)
+		h := fnv.New64a()
+		fmt.Fprint(h, ft.Upem())
+		if ft.Cmap != nil {
+			it := ft.Cmap.Iter()
+			for n := 0; n < 3000 && it.Next(); n++ {
+				r, g := it.Char()
+				fmt.Fprint(h, r, g)
+			}
+		}
+		for g := font.GID(0); g < 64; g++ {
+			e, has := face.GlyphExtents(g)
+			fmt.Fprint(h, face.HorizontalAdvance(g), e, has, ft.GlyphName(g))
+		}
+		out, ok = fmt.Sprintf("%x", h.Sum64()), true
+	})
+	return out, ok
 }
